@@ -25,6 +25,7 @@ type StakingKeeper interface {
 type AccountKeeper interface {
 	GetAccount(ctx context.Context, addr sdk.AccAddress) sdk.AccountI
 	SetAccount(ctx context.Context, acc sdk.AccountI)
+	NewAccountWithAddress(ctx context.Context, addr sdk.AccAddress) sdk.AccountI
 	IterateAccounts(ctx context.Context, cb func(account sdk.AccountI) (stop bool))
 }
 
